@@ -46,8 +46,31 @@ static void sem_body(int idx, int y, int w) {
   if (w) rt_work(idx, w);
 }
 
+// "semcrowd s n": n further (anonymous) fibers each take one unit of semaphore s; the caller posts n units one by one
+static long sem_crowd;
+static void* sem_crowd_body(void* p) {
+  int s = (int)(intptr_t)p;
+  fiber_semaphore_wait(&sem[s]);
+  gs_acquired(s, -1, 0);
+  return 0;
+}
 static int sem_do_op(int idx, op_t* op) {
   int s = op->a % NS;
+  if (!strcmp(op->name, "semcrowd")) {
+    for (int i = 0; i < op->b; i++) {
+      fiber_t* f = fiber_create(8192, &sem_crowd_body, (void*)(intptr_t)s);
+      if (!f) vs_violation("engine_limit", "fiber_create failed");
+      fiber_detach(f);
+    }
+    sem_crowd += op->b;
+    for (int i = 0; i < 2; i++) fiber_yield();   // let them run into the semaphore
+    for (int i = 0; i < op->b; i++) {
+      gs_post_begin(s);
+      fiber_semaphore_post(&sem[s]);
+      gs_post_done(s);
+    }
+    return 1;
+  }
   if (!strcmp(op->name, "swait") || !strcmp(op->name, "swaitpost")) {
     int before = g_fiber_switches(idx);
     fiber_semaphore_wait(&sem[s]);
@@ -96,6 +119,7 @@ GHOST static void sem_final(void) {
       vs_violation("value_mismatch", "semaphore %d value %ld after activity ceased, expected initial %ld + posts %ld - acquired %ld = %ld", i, got,
                    sem_init_val[i], posts_done[i], acquired[i], expect);
   }
+  vs_label_max("crowd", (uint64_t)sem_crowd);
   vs_label_add("sem_blocked_waits", sem_blocked_waits);
   vs_label_add("sem_try_ok", sem_try_ok);
   vs_label_add("sem_try_fail", sem_try_fail);
@@ -161,10 +185,36 @@ static void rw_section(int idx, int l, int write, int y, int w) {
   if (w) rt_work(idx, w);
   if (write) rw_cell[l] = v + 1;
 }
-static long rw_holds_max;
+static long rw_holds_max, rw_crowd;
+// "rdcrowd l n": the caller takes the write lock, starts n further (anonymous) fibers that each take a read lock, lets them
+// queue behind it, and unlocks: one hand-off admits all of them
+static void rw_section(int idx, int l, int write, int y, int w);
+static void* rw_crowd_body(void* p) {
+  int l = (int)(intptr_t)p;
+  fiber_rwlock_rdlock(&rwl[l]);
+  grw_acq(l, -1, 0, 0);
+  rw_section(0, l, 0, 0, 0);
+  grw_rel(l, -1, 0);
+  fiber_rwlock_rdunlock(&rwl[l]);
+  return 0;
+}
 static int rw_do_op(int idx, op_t* op) {
   int l = op->a % NRW;
   int write = -1, try = 0;
+  if (!strcmp(op->name, "rdcrowd")) {
+    fiber_rwlock_wrlock(&rwl[l]);
+    grw_acq(l, idx, 1, 0);
+    for (int i = 0; i < op->b; i++) {
+      fiber_t* f = fiber_create(8192, &rw_crowd_body, (void*)(intptr_t)l);
+      if (!f) vs_violation("engine_limit", "fiber_create failed");
+      fiber_detach(f);
+    }
+    rw_crowd += op->b;
+    rw_section(idx, l, 1, 2, 0);
+    grw_rel(l, idx, 1);
+    fiber_rwlock_wrunlock(&rwl[l]);
+    return 1;
+  }
   if (!strcmp(op->name, "rdhold")) {
     // any number of simultaneous read holds: up to b read locks taken by this fiber (tryrdlock: a reader that finds a writer
     // waiting would queue behind it), a trywrlock against them, a yield so that the others meet the held lock, then all released
@@ -228,7 +278,7 @@ GHOST static void rw_final(void) {
   vs_label_add("rw_try_ok", rw_try_ok);
   vs_label_add("rw_try_fail", rw_try_fail);
   vs_label_max("rw_shared_max", rw_shared_max);
-  vs_label_max("crowd", (uint64_t)rw_holds_max);
+  vs_label_max("crowd", (uint64_t)(rw_holds_max > rw_crowd ? rw_holds_max : rw_crowd));
   if (n && rw_blocked > 0) rt_nontrivial("rwlock");
   vs_rt_exit();
 }
